@@ -57,11 +57,14 @@ class C07(Prop):
     assumptions = [
         "tokens are ASCII; int() restricted to [+-]?[0-9]+ vs clearly non-numeric strings (no "
         "whitespace/underscore next to digits)",
-        "argument kinds str/int/bool/list only (what @task derives from str/int/bool/list/None defaults)",
+        "argument kinds: str/int/bool/list modelled in full; float, complex, bytes and date defaults "
+        "(other callable kinds) through an oracle -- the harness calls the kind itself on every substring "
+        "of the command-line tokens and hands the model the outcomes (value repr / ValueError / TypeError); "
+        "such parameters are never made incrementable",
         "contexts come from Collection.to_contexts() (flag spellings pairwise distinct)",
         "fluidity's retry of an action without arguments on TypeError is not reachable for these kinds",
     ]
-    not_modelled = ["float/tuple/custom kind callables", "help= strings", "debug logging",
+    not_modelled = ["kind callables other than str/int/bool/list/float/complex/bytes/date", "help= strings", "debug logging",
                     "non-ASCII tokens", "Parser with colliding flag spellings built by hand"]
 
     # ------------------------------------------------------------------
@@ -125,7 +128,7 @@ class C07(Prop):
             return "(TableCase %s %s)" % (pc.initsel(case["which"]), o)
         specs = [] if case.get("noctx") else pc.ctx_specs(case["sigs"])
         return "(ParseCase %s %s %s %s %s)" % (
-            ct.lst([pc.ctxspec(c) for c in specs]), pc.initsel(case["initial"]), ct.b(case["ign"]),
+            ct.lst([pc.ctxspec(c, case["argv"]) for c in specs]), pc.initsel(case["initial"]), ct.b(case["ign"]),
             ct.strs(case["argv"]), ct.result(obs, pc.pobs))
 
     # ------------------------------------------------------------------
@@ -154,13 +157,27 @@ class C07(Prop):
                                    ",remainder" if o["remainder"] else "")
 
     def finding_of(self, case, obs, verdict=None):
-        # No open finding is attributable to C07 any more -- every disagreement with the
-        # executable specification is a VIOLATION:
+        # Fixed, hence never attributable (their witnesses stay in corpus/C07/witnesses.json, so a
+        # revert is reported):
         #  F-C07a (ValueError from int() escaping parse_argv)            repaired by 401bc73
         #  F-C07b (AttributeError without initial context)              repaired by e36c9e6
-        #  F-C07c / F-C07d (value flag left without a value accepted when its argument is a list
-        #  or already holds a value; clause B2)                         repaired by 9120dc5
-        # Their witnesses stay in corpus/C07/witnesses.json, so a revert is reported.
+        #  F-C07c / F-C07d (value flag left without a value accepted)   repaired by 9120dc5
+        #  F-C07f (TypeError of the argument's own type escaping)       repaired by f5d4a34
+        if case["kind"] != "parse" or case.get("noctx"):
+            return None
+        # F-C07e: TypeError out of parse_argv, the model agrees (corr), and the command line
+        # mentions -- as an exact flag or as a member of a short-flag cluster -- a counter
+        # (incrementable) whose default is not a number.
+        if obs.get("err") == "TypeError" and (verdict is None or verdict.get("corr", False)):
+            body = pc.body_of(case["argv"])
+            for c in pc.ctx_specs(case["sigs"]):
+                for a in c["args"]:
+                    if a["incrementable"] and not isinstance(a["default"], (int, bool)):
+                        for fl in pc.spellings_of_arg(a):
+                            for t in body:
+                                if t == fl or (len(fl) == 2 and t.startswith("-") and
+                                               not t.startswith("--") and fl[1] in t[1:]):
+                                    return "F-C07e"
         return None
 
     def shrink_candidates(self, case):
